@@ -257,6 +257,12 @@ def check_df_wrapper(ctx, fname, callee, rule, extra_args=(), shift=False):
                 if name == "numpy.isfinite": return True
                 return NotImplemented
             I.hooks["lib"] = lib
+
+            def method(I_, o, name, args, kw, st, n):
+                if isinstance(o, Marker) and o.kind == "worked" and name in ("astype", "round", "clip", "view"):
+                    return Marker("converted", of=o, how=name, args=list(args))       # recognised: the worker's output is post-processed
+                return NotImplemented
+            I.hooks["method"] = method
             df = DF("df", log)
             kw = {"columns": cols, "inplace": inplace}
             args = [df] + list(extra_args)
@@ -285,6 +291,9 @@ def check_df_wrapper(ctx, fname, callee, rule, extra_args=(), shift=False):
                     keys = [k for k in sets if (k == col if inplace else (isinstance(k, str) and k.startswith(col) and k != col))]
                     if len(keys) != 1: bad = f"column {col!r}: {len(keys)} result columns written ({sorted(map(str, sets))})"; break
                     v = sets[keys[0]]
+                    if isinstance(v, Marker) and v.kind == "converted":
+                        bad = (f"column {keys[0]!r} receives the worker's output after .{v.info['how']}(...): converted before it is stored (a cast to the column's own dtype "
+                               "truncates the result for integer columns)"); break
                     if not (isinstance(v, Marker) and v.kind == "worked"):
                         if is_opaque(v): return UNKNOWN, f"column {keys[0]!r} receives {v!r}", ""
                         bad = f"column {keys[0]!r} receives {v!r}: the worker's output is converted or replaced before it is stored"; break
